@@ -413,6 +413,9 @@ Fixpoint den (t : ir) (d : db) {struct t} : list tuple :=
 Definition dens (t : ir) (d : db) : list tuple := dedup_tuples (den t d).
 
 (* ------------------------------------------------------------------ schema width *)
+Definition first_nonzero (ws : list nat) : nat :=
+  match find (fun w => negb (Nat.eqb w 0)) ws with Some w => w | None => 0%nat end.
+
 (* IRNode::output_schema().len() *)
 Fixpoint width (t : ir) : nat :=
   match t with
@@ -421,7 +424,7 @@ Fixpoint width (t : ir) : nat :=
   | Filter x _ => width x
   | Join _ _ _ _ s => length s
   | Distinct x => width x
-  | Union ts => match ts with [] => 0%nat | x :: _ => width x end
+  | Union ts => first_nonzero (map width ts)      (* the first input that reports a schema *)
   | Aggregate _ _ _ s => length s
   | Antijoin _ _ _ _ s => length s
   | Compute x es => (width x + length es)%nat
